@@ -16,6 +16,8 @@ import Ptn.C05.WholeProgram
 import Ptn.C05.WholeProgramLink
 import Ptn.C05.WholeProgramTwo
 import Ptn.C05.SiteProjected
+import Ptn.C05.LinkProjected
+import Ptn.C05.TwoSiteProjected
 /-! Property theorems for C05.  `Core.lean`: duration totals of the three schedules for arbitrary
 segment lists (per segment edge, under the hypotheses `Nodup` / last-two-adjacent).  `Tree.lean`:
 the same totals for every well-formed tree with the segments computed from the C17 model of the
@@ -793,5 +795,88 @@ example : (∀ e ∈ Tree.info none ((Ctx.frame 1 [] [] tsUp).plug (Tree.node 2 
     intro z
     simp only [List.count_cons, List.count_nil]
     omega
+
+/-! ### `link_heff_eq_projected` (builder B63): the chain 0 — 1 — 2, link on the LOWER edge 1 — 2, node tensors and cache
+`lk2Cache` as above; the theorem is APPLIED — all its hypotheses hold — and the canonical `linkEnvKet`, `opAll`,
+`linkEnvBra` replace the split `lk2E`, `chH`, `lk2B`; the dimensions are 2 on every leg. -/
+
+example : ∃ m : Mat, getEffectiveLinkHamiltonian ⟨some 1, [(Tree.node 2 []).id]⟩ (Tree.node 2 []).id 1 lk2Cache = some m ∧
+    getEffectiveLinkHamiltonian ⟨some 1, [(Tree.node 2 []).id]⟩ 1 (Tree.node 2 []).id lk2Cache = some m ∧
+    ∀ e : Expr Leg Int, Built m.toT e →
+      e.leaves.Perm (linkLeaves chOpKids chKv chOv chBv chCtx (Tree.node 2 [])) →
+      ∀ σ, e.eval (fun _ => 2) σ =
+        sumPairs (fun _ => 2) ((chCtx.ids ++ (Tree.node 2 []).ids).map physOut)
+          (fun τ => sumPairs (fun _ => 2) ((chCtx.ids ++ (Tree.node 2 []).ids).map physIn)
+            (fun ρ => (linkEnvKet chKv chCtx (Tree.node 2 [])).eval (fun _ => 2) ρ *
+              (opAll chOv chOpKids (chCtx.plug (Tree.node 2 []))).eval (fun _ => 2) ρ) τ *
+            (linkEnvBra chBv chCtx (Tree.node 2 [])).eval (fun _ => 2) τ) σ := by
+  obtain ⟨_, _, _, _, _, _, _, _, _, _, m, hm1, hm2, _, _, _, hall⟩ := link_heff_eq_projected chCtx 1 rfl (Tree.node 2 [])
+    (by decide) chOpKids
+    (fun e he => by rcases chInfo e he with rfl | rfl | rfl <;> decide) chKv chOv chBv
+    (fun e he => by rcases chInfo e he with rfl | rfl | rfl <;> exact demoT_local _)
+    (fun e he => by rcases chInfo e he with rfl | rfl | rfl <;> exact demoT_local _)
+    (fun e he => by rcases chInfo e he with rfl | rfl | rfl <;> exact demoT_local _)
+    lk2Cache (by decide) (by decide)
+  exact ⟨m, hm1, hm2, fun e hbe hl σ => (hall e hbe hl).2.2.2 (fun _ => 2) (fun _ _ => rfl) σ⟩
+
+/-! ### `two_site_heff_eq_projected` / `…_up` (builder B63): the chain 0 — 1 — 2 — 3, pair 1 — 2, node tensors `ts4Kv/Ov/Bv`,
+cache `tsCache`; both theorems are APPLIED — all hypotheses hold — and the canonical `pairEnvKet`, `opAll`, `pairEnvBra`
+replace the split `tsE`, `tsH`, `tsB`; the dimensions are 2 on every leg. -/
+
+example : ∃ m : Mat, getEffectiveTwoSiteHamiltonian ⟨tsUp.parent, ts4OpKids 1⟩ ⟨some 1, ts4OpKids 2⟩ ⟨some 0, [3]⟩
+      (gOpT 1 ⟨tsUp.parent, ts4OpKids 1⟩) (gOpT 2 ⟨some 1, ts4OpKids 2⟩) 1 2 tsCache = some m ∧
+    ∀ e : Expr Leg Int, Built m.toT e →
+      e.leaves.Perm (pairLeaves ts4OpKids ts4Kv ts4Ov ts4Bv tsUp 1 2 [] [] [Tree.node 3 []]) →
+      ∀ σ, e.eval (fun _ => 2) σ =
+        sumPairs (fun _ => 2) ((tsUp.ids ++ Tree.idsL ((([] : List Tree) ++ []) ++ [Tree.node 3 []])).map physOut)
+          (fun τ => sumPairs (fun _ => 2) ((tsUp.ids ++ Tree.idsL ((([] : List Tree) ++ []) ++ [Tree.node 3 []])).map physIn)
+            (fun ρ => (pairEnvKet ts4Kv tsUp 1 2 [] [] [Tree.node 3 []]).eval (fun _ => 2) ρ *
+              (opAll ts4Ov ts4OpKids ((Ctx.frame 1 [] [] tsUp).plug (Tree.node 2 [Tree.node 3 []]))).eval (fun _ => 2) ρ) τ *
+            (pairEnvBra ts4Bv tsUp 1 2 [] [] [Tree.node 3 []]).eval (fun _ => 2) τ) σ := by
+  obtain ⟨_, _, _, _, _, _, _, _, _, _, m, hm, _, _, _, hall⟩ := two_site_heff_eq_projected tsUp 1 2 [] [] [Tree.node 3 []]
+    (by decide) ts4OpKids
+    (fun e he => by rcases ts4Info e he with rfl | rfl | rfl | rfl <;> decide) ts4Kv ts4Ov ts4Bv
+    (fun e he => by rcases ts4Info e he with rfl | rfl | rfl | rfl <;> exact demoT_local _)
+    (fun e he => by rcases ts4Info e he with rfl | rfl | rfl | rfl <;> exact demoT_local _)
+    (fun e he => by rcases ts4Info e he with rfl | rfl | rfl | rfl <;> exact demoT_local _)
+    ⟨some 0, [3]⟩ (by decide) tsCache
+    (fun q hq => by
+      have : q = 0 := by simpa [tsUp, Ctx.parent] using hq.symm
+      subst this
+      rfl)
+    (by simp)
+    (fun n hn => by
+      have : n = 3 := by simpa [Tree.id] using hn
+      subst this
+      rfl)
+  exact ⟨m, hm, fun e hbe hl σ => (hall e hbe hl).2.2.2 (fun _ => 2) (fun _ _ => rfl) σ⟩
+
+example : ∃ m : Mat, getEffectiveTwoSiteHamiltonian ⟨some 1, ts4OpKids 2⟩ ⟨tsUp.parent, ts4OpKids 1⟩ ⟨some 0, [3]⟩
+      (gOpT 2 ⟨some 1, ts4OpKids 2⟩) (gOpT 1 ⟨tsUp.parent, ts4OpKids 1⟩) 2 1 tsCache = some m ∧
+    ∀ e : Expr Leg Int, Built m.toT e →
+      e.leaves.Perm (pairLeaves ts4OpKids ts4Kv ts4Ov ts4Bv tsUp 1 2 [] [] [Tree.node 3 []]) →
+      ∀ σ, e.eval (fun _ => 2) σ =
+        sumPairs (fun _ => 2) ((tsUp.ids ++ Tree.idsL ((([] : List Tree) ++ []) ++ [Tree.node 3 []])).map physOut)
+          (fun τ => sumPairs (fun _ => 2) ((tsUp.ids ++ Tree.idsL ((([] : List Tree) ++ []) ++ [Tree.node 3 []])).map physIn)
+            (fun ρ => (pairEnvKet ts4Kv tsUp 1 2 [] [] [Tree.node 3 []]).eval (fun _ => 2) ρ *
+              (opAll ts4Ov ts4OpKids ((Ctx.frame 1 [] [] tsUp).plug (Tree.node 2 [Tree.node 3 []]))).eval (fun _ => 2) ρ) τ *
+            (pairEnvBra ts4Bv tsUp 1 2 [] [] [Tree.node 3 []]).eval (fun _ => 2) τ) σ := by
+  obtain ⟨_, _, _, _, _, _, _, _, _, _, m, hm, _, _, _, hall⟩ := two_site_heff_eq_projected_up tsUp 1 2 [] [] [Tree.node 3 []]
+    (by decide) ts4OpKids
+    (fun e he => by rcases ts4Info e he with rfl | rfl | rfl | rfl <;> decide) ts4Kv ts4Ov ts4Bv
+    (fun e he => by rcases ts4Info e he with rfl | rfl | rfl | rfl <;> exact demoT_local _)
+    (fun e he => by rcases ts4Info e he with rfl | rfl | rfl | rfl <;> exact demoT_local _)
+    (fun e he => by rcases ts4Info e he with rfl | rfl | rfl | rfl <;> exact demoT_local _)
+    ⟨some 0, [3]⟩ (by decide) tsCache
+    (fun q hq => by
+      have : q = 0 := by simpa [tsUp, Ctx.parent] using hq.symm
+      subst this
+      rfl)
+    (by simp)
+    (fun n hn => by
+      have : n = 3 := by simpa [Tree.id] using hn
+      subst this
+      rfl)
+  exact ⟨m, hm, fun e hbe hl σ => (hall e hbe hl).2.2.2 (fun _ => 2) (fun _ _ => rfl) σ⟩
 
 end Ptn.C05.Heff
